@@ -1,7 +1,7 @@
 #!/bin/bash
 # verify_seed.sh <ID>: in the scratch worktree /tmp/sv (detached at /repo main) confirm that the seeded
 # patch compiles, passes the 199 tests, and that its demonstration fails with it and passes without.
-id="$1"; slot="${2:-0}"; sd="${3:-$1}"; src="${4:-/tmp/seed}"; d=/verif/seeded/$sd; W=/tmp/sv$slot; T=/tmp/sv$slot-target
+id="$1"; slot="${2:-0}"; sd="${3:-$1}"; src="${4:-/tmp/seed}"; d=/verif/seeded/$sd; W=/work/sv$slot; T=/work/sv$slot-target
 [ -d $W ] || git -C /repo worktree add -q --detach $W HEAD
 cd $W && git checkout -q --detach $(git -C /repo rev-parse HEAD) && git checkout -q -- . && git clean -fdq
 cmd=$(python3 -c "import json;print(json.load(open('$d/meta.json'))['demo_cmd'])" | sed "s#$src/$id#$W#g; s#$src/target-$id#$T#g; s#CARGO_TARGET_DIR=[^ ]*#CARGO_TARGET_DIR=$T#g")
